@@ -169,3 +169,66 @@ fn verif_shim_linked_matches_hashlink() {
     println!("VERIF-SHIM linked mismatches={}", bad);
     assert_eq!(bad, 0);
 }
+
+#[test]
+fn verif_shim_arrayvec_matches_arrayvec() {
+    use crate::verif_shims::arrayvec::ArrayVec as M;
+    let mut bad = 0;
+    for seed in 0..300u64 {
+        let mut r = Lcg(seed * 15485863 + 11);
+        let mut m: M<(u8, u16), 5> = M::new();
+        let mut s: arrayvec::ArrayVec<(u8, u16), 5> = arrayvec::ArrayVec::new();
+        for _ in 0..40 {
+            let v = ((r.next() % 7) as u8, (r.next() % 1000) as u16);
+            match r.next() % 8 {
+                0 | 1 => {
+                    if !s.is_full() {
+                        m.push(v);
+                        s.push(v);
+                    }
+                }
+                2 => {
+                    if !s.is_empty() {
+                        let i = (r.next() as usize) % s.len();
+                        if m.remove(i) != s.remove(i) {
+                            bad += 1;
+                        }
+                    }
+                }
+                3 => {
+                    if !s.is_full() {
+                        let i = (r.next() as usize) % (s.len() + 1);
+                        m.insert(i, v);
+                        s.insert(i, v);
+                    }
+                }
+                4 => {
+                    if m.pop() != s.pop() {
+                        bad += 1;
+                    }
+                }
+                5 => {
+                    m.sort_by(|a, b| a.1.cmp(&b.1));
+                    s.sort_by(|a, b| a.1.cmp(&b.1));
+                }
+                6 => {
+                    let a: M<u16, 5> = m.iter().map(|x| x.1).collect();
+                    let b: arrayvec::ArrayVec<u16, 5> = s.iter().map(|x| x.1).collect();
+                    if a.into_iter().collect::<Vec<_>>() != b.into_iter().collect::<Vec<_>>() {
+                        bad += 1;
+                    }
+                }
+                _ => {
+                    if m.iter().position(|x| x.0 == v.0) != s.iter().position(|x| x.0 == v.0) || m.get(1) != s.get(1) || m.first() != s.first() {
+                        bad += 1;
+                    }
+                }
+            }
+            if m.as_slice() != s.as_slice() || m.len() != s.len() || m.is_full() != s.is_full() {
+                bad += 1;
+            }
+        }
+    }
+    println!("VERIF-SHIM arrayvec mismatches={}", bad);
+    assert_eq!(bad, 0);
+}
